@@ -311,6 +311,9 @@ def lifecycleOK (s : Core) : Option String :=
       some s!"terminated-still-in-queue {a.id}"
     -- an ask that arrives at a Completing application moves it back to Running; an application only becomes
     -- Completing when it has neither asks nor allocations
+    -- … nor while a swap the scheduler decided is waiting for the shim: its real allocation is about to be bound
+    else if a.state == "Completed" && a.items.any (·.inflightReal) then
+      some s!"completed-with-swap-in-flight {a.id}"
     else if a.state == "Completing" && a.items.any (fun i => i.inReq && !i.allocated) then
       some s!"completing-with-pending-ask {a.id}"
     else none)
